@@ -121,7 +121,7 @@ def run(ck):
     oracle(ck)
     ck.cov["rule"] = "q in {1,2,3} inputs with gains/delays, noise floor 0.05/0.5; analytic vs numeric; permutation; random invertible re-mixing; exact static combination; SISO with delay vs sqrt(Gyy(1-coh)); bins with navg > q"
     ck.samples = [dict(q=2, delays=[1, 3])]
-    ck.assumptions += ["PARTIAL: re-mixing invariance and analytic = numeric are checked on the implementation only (the sum-of-squares form, the [0,S00] range at a solution, exact combinations and input order are theorems for any q)", "sympy.solve / np.linalg.solve return a solution of the stated system (residual of the linear system not re-derived)"]
+    ck.assumptions += ["theorems are at exact real arithmetic for any q; float rounding and ill-conditioning of the solvers are explored on the implementation", "sympy.solve / np.linalg.solve return a solution of the stated system (residual of the linear system not re-derived)"]
 
 
 def replay(rec):
